@@ -18,7 +18,7 @@ BINS = [b for b in ["h_chainview"] if os.path.exists(os.path.join(_HB, b + ".rs"
 LEVEL = "proof"
 MANIFEST = {
     "category": "proof",
-    "text": "Coq theorems over a model of the monitor's chain bookkeeping (transactions_confirmed, best_block_updated incl. reorg branch, block_confirmed maturation, blocks_disconnected, transaction_unconfirmed): all admissible deliveries of a chain give the same view; irreversible conclusions only ANTI_REORG_DELAY deep (any operation list); re-delivery is idempotent; forks shallower than ANTI_REORG_DELAY leave no trace. Real monitors are cloned and fed the same chain under ten delivery styles with fork detours, judged on the real monitors, and the model must predict get_relevant_txids after every operation.",
+    "text": "Coq theorems over a model of the monitor's chain bookkeeping (transactions_confirmed, best_block_updated incl. reorg branch, block_confirmed maturation, blocks_disconnected, transaction_unconfirmed): all admissible deliveries of a chain give the same view; irreversible conclusions only ANTI_REORG_DELAY deep (any operation list); re-delivery is idempotent; forks shallower than ANTI_REORG_DELAY leave no trace, also when monitor updates arrive after the closing transaction confirmed (their entries are stamped with the spend's height and retracted with it). Real monitors are cloned and fed the same chain and the same monitor updates under ten delivery styles with fork detours (incl. rewinding ones) and every timing of the updates relative to confirmation and burial, judged on the real monitors (equal views at the tip, every awaiting entry stamped with the height and block of its transaction, nothing irreversible before burial), and the model must predict get_relevant_txids after every operation.",
     "note": "Trusted: Coq kernel, rs2v (confirmation_threshold), harness + LDK test utilities. The model is hand-written and trace-validated; claim regeneration inside OnchainTxHandler after reorgs and the ChannelManager side are validated at the observables only.",
     "technique": "machine-checked proof in Coq (invariants over operation lists) + differential execution of real monitor clones under different chain deliveries + per-operation model correspondence",
 }
@@ -32,6 +32,25 @@ Fixpoint scan (st : state) (ops : list op) : list (list (Z * Z * Z)) :=
   match ops with [] => [] | o :: t => let st' := step st o in relevant_txids st' :: scan st' t end.
 Definition B (id h : Z) : blk := mkBlk id h [].
 """
+
+
+def anchored_height_stamp(repo):
+    """Anchored extraction (textual): in `fail_htlcs_from_update_after_funding_spend` the queued
+    OnchainEventEntry must take its `height` from the pending FundingSpendConfirmation entry (the spend's
+    confirmation height), not from the best block. Returns None if so, else a description."""
+    src = open(os.path.join(repo, "lightning/src/chain/channelmonitor.rs")).read()
+    m = re.search(r"fn fail_htlcs_from_update_after_funding_spend.*?\n\t}\n", src, re.S)
+    if not m:
+        return "function fail_htlcs_from_update_after_funding_spend not found"
+    body = m.group(0)
+    if not re.search(r"\.map\(\|entry\|\s*\(entry\.txid,\s*entry\.transaction\.clone\(\),\s*entry\.height,\s*entry\.block_hash\)\)", body):
+        return "the pending spend entry's height is no longer captured"
+    lit = re.search(r"let entry = OnchainEventEntry \{(.*?)event:", body, re.S)
+    if not lit or not re.search(r"\n\s*height,\n", lit.group(1)):
+        return "the queued entry's `height` is not the captured spend height: %r" % (lit.group(1).strip()[:160] if lit else None)
+    if not re.search(r"\n\s*block_hash,\n", lit.group(1)) or not re.search(r"\n\s*txid,\n", lit.group(1)):
+        return "the queued entry's `txid` / `block_hash` are not those of the captured spend: %r" % lit.group(1).strip()[:160]
+    return None
 
 
 def generate(ctx):
@@ -88,7 +107,7 @@ def _parse_trace(t):
         # transaction_unconfirmed: the monitor and its OnchainTxHandler each retract from their own list
         # (only the one that has an entry for that txid), the model keeps one merged list; single
         # unconfirmations are therefore compared at the end of each batch (the next non-R operation)
-        exp.append(None if op[0] == "R" else sorted(tuple(int(v) for v in o.split(".")) for o in obs.split(",") if o))
+        exp.append(None if op[0] == "R" else sorted(set(tuple(int(v) for v in o.split(".")) for o in obs.split(",") if o)))
         k = op[0]
         if k == "C":
             blk, txs = op[1:].split(":")
@@ -99,6 +118,8 @@ def _parse_trace(t):
             ops.append("%s (B %s %s)" % ("BB" if k == "U" else "BD", bid, h))
         elif k == "R":
             ops.append("TU %s" % op[1:])
+        elif k == "A":
+            ops.append("AU %s 9" % op[1:])
     return "scan (mkSt %d %d [] [] []) [%s]" % (h0, h0, "; ".join(ops)), exp
 
 
@@ -136,8 +157,9 @@ def model_correspondence(ctx, recs, limit):
             if e is None:
                 continue
             nobs += 1
-            if sorted(tuple(a) for a in m) != e:
-                dis.append({"seed": seed, "op_index": i, "model_relevant": sorted(tuple(a) for a in m), "impl_relevant": e, "trace_head": t[:200]})
+            # the real get_relevant_txids lists a transaction once however many entries wait on it
+            if sorted(set(tuple(a) for a in m)) != e:
+                dis.append({"seed": seed, "op_index": i, "model_relevant": sorted(set(tuple(a) for a in m)), "impl_relevant": e, "trace_head": t[:200]})
                 break
     return dis, len(cases), nobs
 
@@ -161,6 +183,8 @@ def run(ctx):
         proved = ctx.prove("C11")
     else:
         ctx.obligations.append(("rs2v-generation", False, gen_err))
+    stamp = anchored_height_stamp(core.REPO)
+    ctx.obligations.append(("anchored:fail_htlcs_from_update_after_funding_spend.height", stamp is None, stamp or "queued entry stamped with the spend's confirmation height (as Model/ChainView.v AU)"))
     ctx.trusted_base += [
         "Coq 8.16.1 kernel + vm_compute",
         "tools/rs2v (Gen/CltvChecks.v confirmation_threshold, Gen/Consts.v), regenerated every run",
@@ -181,7 +205,7 @@ def run(ctx):
     for s in missing[:3]:
         fails.append({"seed": s, "why": "scenario produced no verdict (harness crashed or timed out)", "detail": ""})
     known_hit = {}
-    tot = {"blocks": 0, "clones": 0, "detours": 0}
+    tot = {"blocks": 0, "clones": 0, "detours": 0, "late": 0}
     for r in recs:
         for k in tot:
             tot[k] += r.get(k, 0) or 0
@@ -232,10 +256,16 @@ def run(ctx):
     broken = []
     if not proved:
         broken.append({"obligation": "Coq proof of Props/C11.v", "detail": getattr(ctx, "proof_failure", {"where": gen_err})})
+    vacuous_late = len(recs) - sum(1 for r in recs if r.get("aborted")) >= 50 and tot["late"] == 0
+    ctx.obligations.append(("coverage:late-monitor-updates-exercised", not vacuous_late, "%d clones were given monitor updates after the closing transaction confirmed" % tot["late"]))
+    if vacuous_late:
+        broken.append({"obligation": "late monitor updates exercised", "detail": "no clone was given a monitor update after the closing transaction confirmed: the late-update judges were vacuous"})
+    if stamp is not None:
+        broken.append({"obligation": "anchored extraction of the height stamp of late-update entries", "detail": stamp})
     if dis:
         broken.append({"correspondence": "h_chainview get_relevant_txids vs Model/ChainView.v", "first_disagreements": dis[:5], "n": len(dis)})
     if broken and not fails:
-        ctx.violation("C11 no longer shown: " + ("proof" if not proved else "correspondence") + " broken",
+        ctx.violation("C11 no longer shown: " + ("proof" if not proved else "anchored extraction" if stamp is not None and not dis else "correspondence") + " broken",
                       {"broken": broken, "search": "judges on %d real monitor clones (equal views across deliveries, burial, shallow-fork retraction) found no failing input" % tot["clones"]}, False)
     ctx.write_evidence(LEVEL)
 
